@@ -120,6 +120,17 @@ def consume (q : Req) (recs : List (Rec × Bool)) : Option (Rec × List (Rec × 
       | none => consumeWith (matchesReq q) recs
   | _ => consumeWith (matchesReq q) recs
 
+/-- ControllerRevision bodies: claim groups and names are built in Go map-iteration order; compare them as sets -/
+def normRevBody (j : J) : J :=
+  match j.get? "children" with
+  | some (.arr gs) =>
+      let gs' := gs.map (fun g => match g.get? "names" with
+        | some (.arr ns) => J.obj (setKey "names" (.arr (((ns.filterMap J.str?).toArray.qsort (· < ·)).toList.map J.str)) g.fields)
+        | _ => g)
+      let sorted := (gs'.toArray.qsort (fun a b => (strAt a ["kind"] ++ "." ++ strAt a ["apiGroup"]) < (strAt b ["kind"] ++ "." ++ strAt b ["apiGroup"]))).toList
+      .obj (setKey "children" (.arr sorted) j.fields)
+  | _ => j
+
 def reqText (q : Req) : String :=
   match q with
   | .api v t _ _ => s!"{v.name} {t.group}/{t.resource} {t.ns}/{t.name}"
@@ -136,7 +147,7 @@ def replay {α : Type} : Prog α → RState → Nat → Option α × RState
         let diffs : List String :=
           match q with
           | .api v _ body opts =>
-              (if v != .get && v != .delete && !(body.eqv r.body) then [s!"body of {reqText q} differs: model {body.render} impl {r.body.render}"] else []) ++
+              (if v != .get && v != .delete && !((normRevBody body).eqv (normRevBody r.body)) then [s!"body of {reqText q} differs: model {body.render} impl {r.body.render}"] else []) ++
               (if v == .delete && !(opts.eqv r.opts) then [s!"options of {reqText q} differ: model {opts.render} impl {r.opts.render}"] else [])
           | .hook _ req => if !(req.eqv r.hookReq) then [s!"{reqText q} request differs: model {req.render} impl {r.hookReq.render}"] else []
         replay (k (respOfRec r)) { recs := recs', mismatches := st.mismatches ++ diffs, order := st.order ++ [r.idx] } fuel
